@@ -264,17 +264,17 @@ PLANS = {
                                              + fns((1,), more_out=(True,), syms=("MX",), generic_calls=2, first_bare=True,
                                                    params=[{"kind": k_, "el": l_} for k_ in ("rho_crit", "rho_max", "a") for l_ in c["net"]["links"]])},
                 quick=dict(n=3, m=3, variants=1, generic=1, corners=13, rand=40),
-                thorough=dict(n=4, m=5, variants=2, generic=2, corners=13, rand=1000)),
+                thorough=dict(n=4, m=5, variants=3, generic=1, corners=3, rand=1000)),
     "C07": dict(rel=rel_C07, want={"np": True, "np_own": True, "fn": fns((-1, 0, 1, 2, 3)) + fns((2,), more_out=(True,))},
                 quick=dict(n=3, m=3, variants=1, generic=1, corners=13, rand=40),
-                thorough=dict(n=4, m=5, variants=2, generic=1, corners=13, rand=600)),
+                thorough=dict(n=4, m=5, variants=3, generic=1, corners=4, rand=600)),
     "C10": dict(rel=rel_C10, want={"np": True, "sens": True, "jac": ["SX", "MX"]},
                 quick=dict(n=3, m=3, variants=2, generic=1, corners=0, rand=40),
                 thorough=dict(n=4, m=5, variants=4, generic=1, corners=2, rand=600)),
     "C04": dict(rel=rel_C04, traj=True, derive=("perm",), also={"opts": dict(variants=1, generic=1, corners=0)}, want=lambda c: {"np": False, "fn": fns((-1, 0, 1, 2, 3), more_out=(False, True), generic_calls=2)
                                              + param_fns(c, levels=(0, 1, 2), more_out=(True,), nsets=1)},
                 quick=dict(n=3, m=3, variants=1, generic=1, corners=0, rand=30, nderive=2),
-                thorough=dict(n=4, m=5, variants=2, generic=1, corners=1, rand=400, nderive=2)),
+                thorough=dict(n=4, m=5, variants=3, generic=1, corners=0, rand=400, nderive=1)),
     "C11": dict(rel=rel_C11, family="opts", want={"np": True, "np_plain": True, "fn": fns((0,)) + fns((2,), syms=("SX",)) + fns((1,), more_out=(True,), syms=("MX",))},
                 quick=dict(n=3, m=3, variants=1, generic=4, corners=4, rand=0),
                 thorough=dict(n=4, m=4, variants=2, generic=8, corners=13, rand=0)),
@@ -287,7 +287,7 @@ PLANS = {
                 thorough=dict(n=4, m=5, variants=3, generic=1, corners=3, rand=600)),
     "C14": dict(rel=rel_C14, derive=("perm", "scale", "dupnames"), want={"np": True, "fn": fns((0,)) + fns((1,), syms=("SX",))},
                 quick=dict(n=3, m=3, variants=3, generic=1, corners=0, rand=30, nderive=2),
-                thorough=dict(n=4, m=5, variants=3, generic=1, corners=2, rand=400, nderive=3)),
+                thorough=dict(n=4, m=5, variants=3, generic=1, corners=1, rand=400, nderive=2)),
     "C18": dict(rel=rel_C18, family="neutral", want={"np": True, "twin": True, "fn": fns((0,))},
                 quick=dict(n=3, m=3, variants=3, generic=1, corners=2, rand=0),
                 thorough=dict(n=4, m=5, variants=5, generic=2, corners=4, rand=0)),
